@@ -580,6 +580,7 @@ class RaggedArray(IndexableArray, np.lib.mixins.NDArrayOperatorsMixin):
     def _as_padded_matrix(self, fill_value=0, side='right'):
         assert side in ["left", "right"]
 
+        self.ravel()
         ends = self._shape.ends
         starts = self._shape.starts
         max_chars = np.max(ends-starts)
